@@ -82,7 +82,7 @@ type c10mStream struct {
 	opened   bool
 	table    bool // in the server's stream table
 	cliOpen  bool // client may still send DATA legally
-	handler  int  // 0 none, 1 idle, 2 blocked in Read, 3 returned
+	handler  int  // 0 none, 1 idle, 2 blocked in Read, 3 returned, 4 Read done, its report to the serve loop pending (loop parked)
 	buffered int64
 	closed   bool // body closed by handler
 	quirk    bool // END_STREAM sent with payload after the body was closed (flag dropped by the server)
@@ -114,7 +114,18 @@ type c10Model struct {
 	stuck    bool  // … and the server has written something since: its writer is stuck, later frames queue behind it
 	pinged   bool  // a PING was sent in this blocked period
 	pendConn int64 // connection-level WINDOW_UPDATE credit the client has not read yet
+
+	// HOLD … REL: the application's ConnState callback is slow. The server
+	// calls it on the serve goroutine, from closeStream, when the last stream
+	// leaves its table: after the stream is marked closed and before its
+	// buffered bytes are refunded and its body pipe is closed.
+	armed    bool  // the next ConnState(StateIdle) callback will not return before REL
+	parked   bool  // the serve loop is inside that callback, in the middle of closeStream(parkIdx)
+	parkIdx  int   // the stream whose close is suspended
+	pendNote int64 // bytes the handler read meanwhile; the report waits for the serve loop
 }
+
+func (m *c10Model) anyTable() bool { return m.s[0].table || m.s[1].table }
 
 func c10NewModel(cfg c08srvCfg) *c10Model {
 	m := &c10Model{cfgConn: c10sCfgWin(cfg.ConnWin), cfgStr: c10sCfgWin(cfg.StrWin)}
@@ -177,9 +188,41 @@ func (m *c10Model) closeStream(s *c10mStream) {
 	} else {
 		s.cliOpen = false
 	}
+	if m.armed && !m.anyTable() {
+		m.armed, m.parked = false, true
+		m.parkIdx = 0
+		if s == &m.s[1] {
+			m.parkIdx = 1
+		}
+		return
+	}
+	m.closeTail(s)
+}
+
+// closeTail is the second half of closeStream: the refund of what is still
+// buffered, and the end of the body pipe.
+func (m *c10Model) closeTail(s *c10mStream) {
 	m.connAdd(s.buffered)
 	s.pipeErr = true
 	m.wake(s)
+}
+
+// release: the ConnState callback returns; closeStream finishes, then the
+// serve loop receives the reports of the Reads made meanwhile.
+func (m *c10Model) release() {
+	m.armed = false
+	if !m.parked {
+		return
+	}
+	m.parked = false
+	m.closeTail(&m.s[m.parkIdx])
+	m.connAdd(m.pendNote)
+	m.pendNote = 0
+	for i := range m.s {
+		if m.s[i].handler == 4 {
+			m.s[i].handler = 1
+		}
+	}
 }
 
 // srvReset: the server answers with RST_STREAM and closes the stream once
@@ -334,7 +377,24 @@ func (m *c10Model) enabled(ev c08srvEv, enforce bool) bool {
 		return false
 	}
 	idx := func() *c10mStream { return &m.s[c08Idx(ev.arg(0))] }
+	if m.parked {
+		// The serve loop is inside the ConnState callback: only the handler
+		// of the stream being closed acts (one pending kind of input for the
+		// loop, so what it does after REL does not depend on a select).
+		switch ev.K {
+		case "R", "C":
+			s := idx()
+			return s == &m.s[m.parkIdx] && s.handler == 1 && !(ev.K == "C" && s.closed)
+		case "REL":
+			return true
+		}
+		return false
+	}
 	switch ev.K {
+	case "HOLD":
+		return !m.armed && !m.blocked && m.anyTable()
+	case "REL":
+		return false
 	case "H":
 		return !m.s[1].opened && m.goaway != 2
 	case "D":
@@ -451,12 +511,21 @@ func (m *c10Model) apply(ev c08srvEv) {
 			s.pipeErr = true
 		}
 		m.wake(s)
+	case "HOLD":
+		m.armed = true
+	case "REL":
+		m.release()
 	case "R":
 		s := idx()
 		if s.closed {
 			return
 		}
-		if s.buffered > 0 {
+		if m.parked && s.buffered > 0 {
+			k := min(ev.arg(1), s.buffered)
+			s.buffered -= k
+			m.pendNote += k
+			s.handler = 4
+		} else if s.buffered > 0 {
 			m.read(s, ev.arg(1))
 		} else if !s.pipeErr {
 			s.handler = 2
@@ -560,6 +629,7 @@ type c10sResult struct {
 	fcErrSeen        bool
 	bytesDelivered   int
 	unblocked        int // times the client resumed reading after a BLK period
+	hookParks        int // times closeStream was suspended in the ConnState callback
 }
 
 func c10srvRunCase(w *vx.W, t testing.TB, cs c08srvCase, mode c10sMode) (res c10sResult, harnessErr string) {
@@ -789,6 +859,29 @@ func c10srvRunCase(w *vx.W, t testing.TB, cs c08srvCase, mode c10sMode) (res c10
 		}
 	}
 
+	// HOLD … REL: the application's ConnState(StateIdle) callback is slow; the
+	// serve loop stays inside closeStream of the last stream. The real state
+	// (env.hookParked) decides what can be done meanwhile: handler commands
+	// only, and no white-box snapshot (it needs the serve loop).
+	readWhileParked := false
+	relKind := func() string {
+		if readWhileParked {
+			return "REL-after-R-while-close-suspended"
+		}
+		return "REL"
+	}
+	release := func(ctx string) {
+		env.releaseHook()
+		readWhileParked = false
+		for i := 0; i < 64; i++ {
+			n := len(res.trace)
+			step(ctx)
+			if len(res.trace) == n || w.Failed() {
+				break
+			}
+		}
+	}
+
 	nextID := uint32(1)
 	npings := byte(0)
 	for i, es := range cs.Evs {
@@ -807,7 +900,24 @@ func c10srvRunCase(w *vx.W, t testing.TB, cs c08srvCase, mode c10sMode) (res c10
 		var expectFC *c10sStream
 		expectFCConn := false
 		var sentInWindow *c10sStream
+		parked := env.hookParked.Load()
+		if parked && ev.K != "R" && ev.K != "C" && ev.K != "REL" {
+			res.skipped++
+			continue
+		}
 		switch ev.K {
+		case "HOLD":
+			if blocked || env.hookArmed.Load() {
+				applied = false
+				break
+			}
+			env.holdIdleHook()
+		case "REL":
+			if !parked {
+				applied = false
+				break
+			}
+			kind = relKind()
 		case "H":
 			if nextID > 3 || (mon.goaway && mon.goawayCode != ErrCodeNo) {
 				applied = false
@@ -955,7 +1065,11 @@ func c10srvRunCase(w *vx.W, t testing.TB, cs c08srvCase, mode c10sMode) (res c10
 						call.readEOF = true
 					}
 				})
-				if s.cliRST || s.srvRST {
+				if parked {
+					kind = "R-while-close-suspended"
+					res.refundPaths[kind] = true
+					readWhileParked = true
+				} else if s.cliRST || s.srvRST {
 					kind = "R-after-reset"
 				} else if blocked && !call.returned.Load() && !env.connClosed {
 					// The client is not reading and cannot have seen a reset;
@@ -1041,13 +1155,22 @@ func c10srvRunCase(w *vx.W, t testing.TB, cs c08srvCase, mode c10sMode) (res c10
 		}
 		res.applied++
 		mon.lastKind = kind
-		if ev.K == "UNB" {
+		switch ev.K {
+		case "UNB":
 			unblock(ctx)
-		} else {
+		case "REL":
+			release(ctx)
+		default:
 			step(ctx)
 		}
 		if env.harnessErr != "" {
 			return
+		}
+		if env.hookParked.Load() {
+			if !parked {
+				res.hookParks++
+			}
+			continue // no quiescent point: closeStream is half done
 		}
 		if mode.enforce {
 			if expectFC != nil {
@@ -1075,6 +1198,22 @@ func c10srvRunCase(w *vx.W, t testing.TB, cs c08srvCase, mode c10sMode) (res c10
 		}
 		if expectFC != nil {
 			break // an out-of-window frame ends the case (the client's view is undefined afterwards)
+		}
+	}
+
+	if env.hookParked.Load() && !w.Failed() && env.harnessErr == "" {
+		// Never leave a case inside the callback: it returns, and the clauses
+		// are evaluated.
+		mon.lastKind = relKind()
+		release("final REL")
+		if env.harnessErr != "" || w.Failed() {
+			return
+		}
+		if !env.connClosed {
+			quiescent("final REL")
+		}
+		if w.Failed() || env.harnessErr != "" {
+			return
 		}
 	}
 
@@ -1177,6 +1316,9 @@ func c10srvCheck(c *vx.Ctx, mode c10sMode) func(w *vx.W, cs c08srvCase) {
 		if res.unblocked > 0 {
 			w.Outcome("srv:client-stopped-and-resumed-reading")
 		}
+		if res.hookParks > 0 {
+			w.Outcome("srv:close-suspended-in-connstate-callback")
+		}
 	}
 }
 
@@ -1201,7 +1343,7 @@ func c10srvAlphabet(cls []int64, data [][3]int64, reads []int64, extras []string
 		}
 	}
 	for _, k := range extras {
-		if k == "G" || k == "GS" || k == "BLK" || k == "UNB" || k == "PING" {
+		if k == "G" || k == "GS" || k == "BLK" || k == "UNB" || k == "PING" || k == "HOLD" || k == "REL" {
 			a = append(a, c08srvEv{K: k})
 			continue
 		}
